@@ -70,13 +70,13 @@ Proof. vm_compute. reflexivity. Qed.
 Lemma rw3_accepted : trace_ok rw3_cfg 0 (model_trace rw3_cfg 0 rw3_evs) = true.
 Proof. vm_compute. reflexivity. Qed.
 
-(* ---- a model trace that position 15 (e_early) rejects: an assignment whose delivery was cancelled ---------------------------------------------------
+(* ---- regression for position 15 (e_early): an assignment whose delivery was cancelled ------------------------------------------------------------
    Retry count 1.  A worker parks; its Synchronize call is cancelled; before the cancelled call leaves the scheduler an
    Execute hands the still listed worker a task; the call returns CANCELLED: the worker holds the task without ever
    having been told.  The worker asks again: the model (like getCurrentOrNextTask in the code) finds a held task, counts
-   t_retry = 1 and tells it (first DExec: m_reissue[w] = (ops, 0)); it asks once more: t_retry has reached the limit, the
-   task is failed with INTERNAL, and e_early reads 0 <> 1: "C06:task-failed-before-retry-limit".  The monitor counts the
-   answers the worker got, the scheduler counts how often it found the worker holding the task. *)
+   t_retry = 1 and tells it; it asks once more: t_retry has reached the limit, the task is failed with INTERNAL.  An
+   earlier p_step counted the answers the worker got (0 at that point) and reported "C06:task-failed-before-retry-limit";
+   it now counts what the scheduler counts, the re-requests of a worker that holds a task, and accepts. *)
 Definition rw4_evs : list (event * list (nat * wref)) :=
   [ (ERegister 0 (mkPK [] 0) [] 0 0 [1%N] 1, []);
     (EStartSync 1 (mkSync rw_w WIdle false) 2, []);
@@ -93,7 +93,5 @@ Qed.
 Lemma rw4_outputs : snd (run (init rw3_cfg 0) rw4_evs) =
   [[ORet 0 0]; []; []; [OGhost GSelect; OMsg 2 0 3 None]; [ORet 1 1]; [OSync 3 (DExec 5 false 100 3 []) 15]; [OGhost (GAbandoned 1)]].
 Proof. vm_compute. reflexivity. Qed.
-Lemma rw4_rejected : trace_ok rw3_cfg 0 (model_trace rw3_cfg 0 rw4_evs) = false /\ trace_sub [15%nat] rw3_cfg 0 (model_trace rw3_cfg 0 rw4_evs) = false.
-Proof. split; vm_compute; reflexivity. Qed.
-Lemma rw4_others_accept : trace_sub [0;1;2;3;4;5;6;7;8;9;10;11;12;13;14;16;17;18;19]%nat rw3_cfg 0 (model_trace rw3_cfg 0 rw4_evs) = true.
+Lemma rw4_accepted : trace_ok rw3_cfg 0 (model_trace rw3_cfg 0 rw4_evs) = true.
 Proof. vm_compute. reflexivity. Qed.
